@@ -154,3 +154,144 @@ func glueLocal(r *Rng, n int, st *Stats) {
 		}
 	}
 }
+
+// glueLocalGlobal: global-css and local-css files with token-identical rules
+// over same-spelled class names, imported in both orders from a JS entry,
+// bundled with minify-syntax (cross-file duplicate removal).  The cascade is
+// evaluated for an element carrying the global class and for one carrying the
+// exported local name: the expected sheet is the concatenation of the files in
+// import order with every local name replaced by the name exported to JS.
+func glueLocalGlobal(r *Rng, n int, st *Stats) {
+	names := []string{"foo", "bar", "a1"}
+	colors := []string{"red", "green", "blue", "tan"}
+	for i := 0; i < n; i++ {
+		dir, err := os.MkdirTemp("", "verif-c12-")
+		if err != nil {
+			panic(err)
+		}
+		nf := r.Range(2, 4)
+		type frule struct {
+			name, color string
+			second      bool // ".x > span" form
+		}
+		type ffile struct {
+			local bool
+			rules []frule
+		}
+		var files []ffile
+		pool := []frule{{names[r.Intn(len(names))], colors[r.Intn(len(colors))], false}}
+		for f := 0; f < nf; f++ {
+			ff := ffile{local: r.Bool()}
+			if i == 0 {
+				// fixed corpus: a global rule first, the same-spelled local one later, and the reverse
+				ff.local = f%2 == 1
+			}
+			for k := r.Range(1, 3); k > 0; k-- {
+				if r.Chance(60) {
+					ff.rules = append(ff.rules, pool[r.Intn(len(pool))]) // token-identical to a rule elsewhere
+				} else {
+					fr := frule{names[r.Intn(len(names))], colors[r.Intn(len(colors))], r.Chance(20)}
+					pool = append(pool, fr)
+					ff.rules = append(ff.rules, fr)
+				}
+			}
+			files = append(files, ff)
+		}
+		fm := map[string]string{}
+		var js strings.Builder
+		text := func(ff ffile, rename func(string) string) string {
+			var sb strings.Builder
+			for _, fr := range ff.rules {
+				if fr.second {
+					fmt.Fprintf(&sb, ".%s > span { color: %s }\n", rename(fr.name), fr.color)
+				} else {
+					fmt.Fprintf(&sb, ".%s { color: %s }\n", rename(fr.name), fr.color)
+				}
+			}
+			return sb.String()
+		}
+		id := func(s string) string { return s }
+		for f, ff := range files {
+			ext := "gcss"
+			if ff.local {
+				ext = "lcss"
+			}
+			name := fmt.Sprintf("m%d.%s", f, ext)
+			fm[name] = text(ff, id)
+			os.WriteFile(filepath.Join(dir, name), []byte(fm[name]), 0o644)
+			fmt.Fprintf(&js, "import s%d from \"./%s\";\n", f, name)
+		}
+		js.WriteString("console.log(JSON.stringify([")
+		for f := range files {
+			if f > 0 {
+				js.WriteString(", ")
+			}
+			fmt.Fprintf(&js, "s%d", f)
+		}
+		js.WriteString("]));\n")
+		fm["entry.js"] = js.String()
+		os.WriteFile(filepath.Join(dir, "entry.js"), []byte(js.String()), 0o644)
+		res := api.Build(api.BuildOptions{
+			AbsWorkingDir: dir, EntryPoints: []string{"entry.js"}, Bundle: true, Outdir: filepath.Join(dir, "out"), Write: true,
+			MinifySyntax: true, Format: api.FormatCommonJS, LogLevel: api.LogLevelSilent,
+			Loader: map[string]api.Loader{".gcss": api.LoaderGlobalCSS, ".lcss": api.LoaderLocalCSS},
+		})
+		desc := map[string]interface{}{"files": fm, "options": "bundle minify-syntax loaders .gcss=global-css .lcss=local-css"}
+		st.Note("glue-local-global", fmt.Sprint(fm), true)
+		if len(res.Errors) > 0 {
+			st.Histogram["glue-local-global-error"]++
+			os.RemoveAll(dir)
+			continue
+		}
+		cssBytes, err1 := os.ReadFile(filepath.Join(dir, "out", "entry.css"))
+		out, err2 := exec.Command("node", filepath.Join(dir, "out", "entry.js")).Output()
+		os.RemoveAll(dir)
+		var exports []map[string]string
+		if err1 != nil || err2 != nil || json.Unmarshal(out, &exports) != nil || len(exports) != len(files) {
+			st.Fail("local-global-build-shape", desc, fmt.Sprint(err1, err2, string(out)), "entry.css and one export map per file")
+			continue
+		}
+		// expected sheet: files in import order, local names replaced by what JS sees
+		var exp strings.Builder
+		classes := map[string]bool{}
+		bad := false
+		for f, ff := range files {
+			f := f
+			rename := id
+			if ff.local {
+				rename = func(s string) string {
+					v, ok := exports[f][s]
+					if !ok {
+						bad = true
+					}
+					return v
+				}
+			}
+			for _, fr := range ff.rules {
+				classes[rename(fr.name)] = true
+			}
+			exp.WriteString(text(ff, rename))
+		}
+		desc["exports"] = exports
+		desc["output"] = string(cssBytes)
+		desc["expected_inlined"] = exp.String()
+		if bad {
+			st.Fail("local-global-missing-export", desc, exports, "every local class exported")
+			continue
+		}
+		// DOM: one element per class name (global spelling and exported local spelling), each with a span child
+		d := &dom{}
+		for _, c := range sortedKeys(classes) {
+			d.nodes = append(d.nodes, node{tag: "div", parent: -1, classes: []string{c}, attrs: map[string]string{}, flags: map[string]bool{}, nsib: 1})
+			d.nodes = append(d.nodes, node{tag: "span", parent: len(d.nodes) - 1, attrs: map[string]string{}, flags: map[string]bool{}, nsib: 1})
+		}
+		inItems := flattenSheet(parseSheet(exp.String()))
+		outItems := flattenSheet(parseSheet(string(cssBytes)))
+		if what, detail := compareCascade(d, inItems, outItems, nil, r, st); what != "" {
+			for k, v := range detail {
+				desc[k] = v
+			}
+			st.Fail("local-global-cascade-winner-changed", desc, detail["output_winner"], detail["input_winner"])
+		}
+	}
+}
